@@ -76,7 +76,7 @@ STUB_E2 = ["rayon-core join / join_context / current_num_threads (vendored copy 
 ASSUME_E2 = [
     "sampling of schedules x worlds x scheduler decisions: a clean batch is evidence, not proof",
     "brood-internal code between two harness callbacks is atomic to the scheduler; overlap is judged structurally from the recorded fork/join tree (series-parallel paths), so one run covers all interleavings of its tree",
-    "the schedule catalogue is generated at build time (32 schedules in the quick tier) because staging is decided by trait resolution",
+    "the schedule catalogue is generated at build time (48 schedules, 169 tasks) because staging is decided by trait resolution",
     "the simulated join reproduces rayon's contract: both closures run to completion, a's panic wins",
 ]
 
